@@ -81,7 +81,7 @@ PROPS = {
         "level_note": "Trusted: Lean kernel; Model/Bandwidth.lean hand-written, ParseFloat modelled on letter-free input only (sign, digits, one dot) with exact rational arithmetic - float64 rounding and the float->uint64 conversion above 2^63 are outside the model; "
                       "non-ASCII input is outside the driver's domain (the totality theorem itself is table-independent). Panics inside encoding/json, yaml, strconv, net are library behaviour, searched not proved.",
         "assumptions": ["strconv.ParseFloat accepts exactly sign/digits/one dot on letter-free input and never panics", "encoding/json, net.ParseCIDR, jsonpatch do not panic"],
-        "trusted_base": ["Model/Bandwidth.lean (hand-written)", "hooks pkg/k8s, pkg/eni, pkg/controller/pod-eni zz_verif_export.go"],
+        "trusted_base": ["Model/Bandwidth.lean, Model/StoredRec.lean (hand-written; guard / loop-shape facts regenerated by factgen)", "hooks pkg/k8s, pkg/eni, pkg/controller/pod-eni, daemon zz_verif_export.go, cmd/terway-cli zz_verif_driver_test.go"],
         "design_ref": "DESIGN.md §4 C15",
     },
     "C19": {
@@ -227,7 +227,7 @@ PROPS["C05"] = {
     "level_text": "Theorems: after every history of good events the invariant holds, hence every recorded address in the pool is bound to its pod and no two records name one address; restart rebinds every recorded address the cloud still reports and frees every unrecorded one; a crash before the database write leaves no trace, after it equals restart-after-completion; an acknowledged ADD is recorded; the store's disk-then-memory order makes every cut point reopen to the acknowledged prefix or one more write; the start-up filter hands every stored item of an attached interface (named by eni_id, or by the MAC of an old-format id) on to the pool and invents nothing. bolt's own fsync/rollback behaviour is exercised by the SIGKILL runs, not proved: partial.",
     "level_note": "Trusted: Lean kernel; bbolt's transactional commit (validated by SIGKILL runs, process kill only - no power-loss simulation); fake cloud. The history theorem excludes the repaired defect 0103396 (a failing ADD keeping what it took), which is proved to break the invariant on a concrete witness; the other repaired defect 529efcf (a failing repeat ADD releasing an acknowledged address) is covered by a witness theorem.",
     "assumptions": _DW_ASSUME,
-    "trusted_base": _DW_TRUST + ["bbolt (github.com/boltdb/bolt) commit/recovery"],
+    "trusted_base": _DW_TRUST + ["bbolt (github.com/boltdb/bolt) commit/recovery", "Model/StoredRec.lean, Proofs/StoredRec.lean (hand-written; loop shape regenerated by factgen)", "hook daemon/zz_verif_export.go VerifLoadPodResources"],
     "design_ref": "DESIGN.md §4 C05",
     "timeout_quick": 1200, "timeout_thorough": 5400,
 }
@@ -245,7 +245,7 @@ PROPS["C09"] = {
     "timeout_quick": 1200, "timeout_thorough": 5400,
 }
 
-_PW_RULE = ("random cases on the REAL eni.Manager over 1-3 REAL eni.Local pools (per-ENI limit 2-4, batch 1-3, IPv4 or dual stack, min/max idle "
+_PW_RULE = ("[1 request in 7 is cancelled at issue, so that both sides of the pool / manager hand-over see a cancelled context] random cases on the REAL eni.Manager over 1-3 REAL eni.Local pools (per-ENI limit 2-4, batch 1-3, IPv4 or dual stack, min/max idle "
     "watermarks) whose mutex is a Locker of the harness: every lock region of every goroutine (Local.Allocate, reply goroutine, per-request "
     "worker, factory worker, dispose worker, balancer's Usage/Dispose, sync, Release) is granted in a random order and recorded with the "
     "Local's full state at its end (addresses with owner/status/primary, raw request queues incl. finished entries, inhibit, ENI status); "
@@ -334,13 +334,13 @@ PROPS["C03"] = {
     "technique": "Lean 4: releasePodNotFound modelled as a total function with theorems for all records/pods/runtime reports; trimming as a relation with theorems about everything it admits; differential correspondence of the real functions; daemon-side monitor on the UID teardown is reported for",
     "level_text": "Theorems: an address is unbound only when its pod is not on the node and (unless the binding has no UID) the node agent's latest report for that UID is 'deleted', and then it is unbound; an existing pod keeps its address; an unreadable NodeRuntime releases nothing; trimming marks only unbound non-primary addresses and gives an interface up only when nothing on it is bound; the assignment step never unbinds; the agent ignores a DEL for a stale sandbox; in every history of the node agent's passes a pod UID is reported as torn down only after its DEL was processed or the API server answered that the pod is gone (a failed look-up reports nothing), and a processed DEL is reported by the next successful pass. The two-process protocol (lost / delayed / duplicated NodeRuntime updates, API write failures) is covered only as 'any NodeRuntime content': partial.",
     "level_note": "Trusted: Lean kernel; fake API objects. The node agent's NodeRuntime object is assumed to exist (its creation by the first pass goes through the API server dropping the status of a created object, not exercised); stamps are compared at one-second resolution. Not modelled: unassignment in handleStatus (it unassigns every entry marked Deleting; that marked entries are unbound is the trim theorem).",
-    "assumptions": _IP_ASSUME, "trusted_base": _IP_TRUST + ["daemon world (see C04)"], "design_ref": "DESIGN.md §4 C03",
+    "assumptions": _IP_ASSUME, "trusted_base": _IP_TRUST + ["Model/Agent.lean, Proofs/Agent.lean (hand-written model + invariant of the node agent's reporting)", "hooks pkg/eni/zz_verif_export.go (VerifNewCRDV2, VerifSyncNodeRuntime, VerifSyncDeletedPods), daemon/zz_verif_export.go (VerifCleanRuntimeNode)"] + ["daemon world (see C04)"], "design_ref": "DESIGN.md §4 C03",
     "timeout_quick": 1200, "timeout_thorough": 5400,
 }
 PROPS["C08"] = {
     "lean": ["C08"],
     "required": ["C08.c08_plan_within_quota", "C08.c08_slots_within_flavor", "C08.c08_no_plan_on_unattached", "C08.planPass_within"],
-    "rule": _IP_RULE,
+    "rule": _IP_RULE + " Closed loop: the fault profiles also answer the Node CR's status write with a Conflict in 1 pass of 5 (status-update conflicts); two regression seeds run first (lost synchronisation after two conflicts in a row, fixed 6131003; failed roll-back delete whose record is lost with a conflicting status write, known finding).",
     "technique": "Lean 4: getEniOptions/assignEniWithOptions modelled as functions of the interface order, quota theorems by induction over the option list; differential correspondence of the real planning functions; closed-loop runs of the real Reconcile against a fake cloud with fault injection (monitors)",
     "level_text": "Theorems for every interface order, record and demand: on an existing interface the plan asks for no more than its quota leaves and only when it is in use; for a new interface no more than the per-interface quota; never more than a batch; existing interfaces plus new slots never exceed the flavor. Convergence to a fixed point and rollback of failed creation are exercised by the closed-loop runs (monitors), not proved: partial.",
     "level_note": "Trusted: Lean kernel; fake cloud and fake API server of the closed-loop runs.",
